@@ -173,7 +173,7 @@ AuthEvents(s) ==
 
 PermMetas == {MetaNone, [cls |-> "perm", chs |-> <<"ch1">>], [cls |-> "perm", chs |-> <<"ch1", "ch2">>],
               [cls |-> "unknownField", chs |-> <<"ch1">>], [cls |-> "casedKey", chs |-> <<"ch2">>],
-              [cls |-> "perm", chs |-> <<"ch2", "ch2">>]}
+              [cls |-> "perm", chs |-> <<"ch2", "ch2">>], [cls |-> "trailing", chs |-> <<"ch1">>]}
               \cup (IF Thorough THEN {[cls |-> "notJSON", chs |-> <<"ch1">>], [cls |-> "wrongType", chs |-> <<"ch1">>]} ELSE {})
 PermEvents(s) ==
   Creates(s, {"x"}, {Cfg("p1", c, 2, m) : c \in {"c1", "c2"}, m \in PermMetas})
